@@ -290,13 +290,22 @@ class StackStream(Stream):
 
 TRUSTED = [
     "Coq 8.16.1 kernel + vm_compute",
-    "hand-written model Stack.v tied to /repo by this correspondence run (sampled)",
+    "hand-written model Stack.v tied to /repo (a) by the translation obligation: harness/translate_stack.py (trusted, fail-closed) "
+    "classifies EVERY occurrence of lekkersim.sol_list in the package (push / pop / use of sol_list[-1]; anything else is rejected; "
+    "module-level helpers must be a single delegation to sol_list[-1]; Solver's own methods must not go through the stack) and "
+    "coq/templates/StackSrcProof.v proves that these operations are the PWith / PHelper clauses of Stack.exec for every stack; "
+    "(b) by this correspondence run (sampled), which observes which solver each helper actually changed",
     "CPython's with / try semantics as modelled (push on __enter__, __exit__ on both exits, exception propagates)",
     "harness: program generator, detection of the solver a helper changed by fingerprinting every solver",
 ]
 
 if __name__ == "__main__":
+    import translate_stack
+    from common import source_obligation
     main("C17", [StackStream()],
+         source_obligations=[source_obligation(
+             "StackSrc_C17", translate_stack.translate, "StackSrcProof.v",
+             ["enter_exit_src", "with_src_is_PWith", "users_act_on_top", "helper_src_is_PHelper"])],
          level_text="props/C17.v: for every program over {helper call, sequence, with-block, raise, try/except}, any nesting "
                     "and both kinds of exit, the stack afterwards equals the stack before (stack_restored), every helper acts "
                     "on the innermost enclosing with-block's solver (helpers_hit_innermost), and earlier effects are untouched "
